@@ -258,25 +258,7 @@ def run(ctx):
               new.loc(), detail="checked before str.__new__")
 
     # ---- UNFOLD -----------------------------------------------------------
-    ufold = rx.repo_rx(m, "parser", "uFOLD")
-    spec = rx.Rx(rfc.UNFOLD_SPEC, 0, "unfold spec")
-    a_in_b, w1, n1 = rx.included(rx.Lang(ufold, "full"), rx.Lang(spec, "full"))
-    b_in_a, w2, n2 = rx.included(rx.Lang(spec, "full"), rx.Lang(ufold, "full"))
-    ctx.check(a_in_b, "C06/UNFOLD", "uFOLD removes nothing but folds",
-              "uFOLD matches text that is not (CR?LF)+ followed by exactly one "
-              "space/tab: unfolding would eat content", None, witness=w1,
-              detail=f"L(uFOLD) ⊆ L(spec), {n1} states")
-    ctx.check(b_in_a, "C06/UNFOLD", "uFOLD removes every fold",
-              "a fold form is not matched by uFOLD", None, witness=w2,
-              detail=f"L(spec) ⊆ L(uFOLD), {n2} states")
-    ctx.check(rx.accepts(rx.Lang(ufold, "full"), sep), "C06/UNFOLD",
-              "fold_sep is a fold", f"the separator {sep!r} inserted by foldline "
-              f"is not matched by uFOLD", None, detail="fold_sep ∈ L(uFOLD)")
-    okc, wc = rx.all_contain(rx.Lang(ufold, "full"), 10)
-    ctx.check(okc, "C06/UNFOLD", "every fold contains LF",
-              "uFOLD matches a string without LF (content lines contain no LF, "
-              "so such a match lies inside content)", None, witness=wc,
-              detail="all matches contain LF")
+    unfold_rule(ctx, "C06/UNFOLD", sep)
     fi = m.own_method("parser.Contentline.from_ical")
     subs = [c for c in ast.walk(fi.node) if isinstance(c, ast.Call)
             and isinstance(c.func, ast.Attribute) and c.func.attr == "sub"
@@ -335,3 +317,35 @@ def run(ctx):
               cl.loc(), detail="Contentlines() of self.content_line(...)")
     ctx.floor("C06/UNFOLD", 6)
     ctx.floor("C06/BOUND-ASCII", 7)
+
+
+def unfold_rule(ctx, rule, sep=None):
+    """uFOLD denotes exactly the RFC fold language (shared by C05, C06, C09)."""
+    m = ctx.model
+    ufold = rx.repo_rx(m, "parser", "uFOLD")
+    spec = rx.Rx(rfc.UNFOLD_SPEC, 0, "unfold spec")
+    a_in_b, w1, n1 = rx.included(rx.Lang(ufold, "full"), rx.Lang(spec, "full"))
+    b_in_a, w2, n2 = rx.included(rx.Lang(spec, "full"), rx.Lang(ufold, "full"))
+    ctx.check(a_in_b, rule, "uFOLD removes nothing but folds",
+              "uFOLD matches text that is not (CR?LF)+ followed by exactly one "
+              "space/tab: unfolding would eat content (e.g. a lone CR before a "
+              "space inside a value)", None, witness=w1,
+              detail=f"L(uFOLD) ⊆ L(spec), {n1} states")
+    ctx.check(b_in_a, rule, "uFOLD removes every fold",
+              "a fold form is not matched by uFOLD", None, witness=w2,
+              detail=f"L(spec) ⊆ L(uFOLD), {n2} states")
+    if sep is not None:
+        ctx.check(rx.accepts(rx.Lang(ufold, "full"), sep), rule,
+                  "fold_sep is a fold", f"the separator {sep!r} inserted by foldline "
+                  f"is not matched by uFOLD", None, detail="fold_sep ∈ L(uFOLD)")
+    okc, wc = rx.all_contain(rx.Lang(ufold, "full"), 10)
+    ctx.check(okc, rule, "every fold contains LF",
+              "uFOLD matches a string without LF (content lines contain no LF, "
+              "so such a match lies inside content)", None, witness=wc,
+              detail="all matches contain LF")
+    fold_b = rx.repo_rx(m, "parser", "FOLD")
+    same = isinstance(fold_b.pattern, bytes) and \
+        fold_b.pattern.decode("latin-1") == ufold.pattern
+    ctx.check(same, rule, "FOLD bytes twin agrees",
+              f"FOLD (bytes) {fold_b.pattern!r} and uFOLD (str) {ufold.pattern!r} differ",
+              None, detail="same pattern")
